@@ -306,21 +306,39 @@ def _arb_case(S):
     R = sample_rotation(S, 'arb_')
     sc = [S.rng.choice([1.0, 2.0, 0.5, 3.0]) for _ in range(3)]
     sh = S.rng.choice([0.0, 0.25, -0.5])
-    b = S.reals('bx by bz')
+    b = [x + S.rng.choice([0.0, 20.0, -15.0]) for x in S.reals('bx by bz')]
 
     def img(u):
         w = (sc[0] * u[0] + sh * u[1], sc[1] * u[1], sc[2] * u[2])
         return [sum(R[i][j] * w[j] for j in range(3)) + b[i] for i in range(3)]
-    cube = [(0, 0, 0), (1, 0, 0), (1, 1, 0), (0, 1, 0), (0, 0, 1), (1, 0, 1), (1, 1, 1), (0, 1, 1)]
-    params = [x for v in cube for x in img(v)] + [1234., 5678., 1265., 2376., 3487., 4158.]
+    shape = S.rng.choice(['cube', 'cube', 'tetrahedron', 'prism'])
     u = [S.rng.uniform(-0.6, 1.6) for _ in range(3)]
-    return params, (u, img(u))
+    if shape == 'cube':
+        verts = [(0, 0, 0), (1, 0, 0), (1, 1, 0), (0, 1, 0), (0, 0, 1), (1, 0, 1), (1, 1, 1), (0, 1, 1)]
+        facets = [1234., 5678., 1265., 2376., 3487., 4158.]
+        inside = all(0 < x < 1 for x in u)
+        margin = min(min(abs(x), abs(x - 1)) for x in u)
+    elif shape == 'tetrahedron':
+        verts = [(0, 0, 0), (1, 0, 0), (0, 1, 0), (0, 0, 1)]
+        facets = [1230., 1240., 2340., 1340., 0., 0.]
+        inside = all(x > 0 for x in u) and sum(u) < 1
+        margin = min(min(abs(x) for x in u), abs(sum(u) - 1))
+    else:      # triangular prism: triangle (0,0),(1,0),(0,1) extruded along w
+        verts = [(0, 0, 0), (1, 0, 0), (0, 1, 0), (0, 0, 1), (1, 0, 1), (0, 1, 1)]
+        facets = [1230., 4560., 1254., 2365., 1364., 0.]
+        inside = u[0] > 0 and u[1] > 0 and u[0] + u[1] < 1 and 0 < u[2] < 1
+        margin = min(abs(u[0]), abs(u[1]), abs(u[0] + u[1] - 1), abs(u[2]), abs(u[2] - 1))
+    pts = [img(v) for v in verts] + [[0.0, 0.0, 0.0]] * (8 - len(verts))      # unused vertex slots are zero-padded
+    params = [x for v in pts for x in v] + facets
+    return params, (u, img(u), inside, margin, sum(1 for f in facets if f))
 
 
 @contract(MB.arb, props=['C03'], name='MacroBodies.arb[sampled]', status='S')
 class _Arb:
-    """Bounded stand-in (sampled): ARB built as an affine image of the unit cube; a probe point A u + b is inside the
-    solid iff 0 < u_i < 1; the intersection of the negative sides of the emitted planes must agree."""
+    """Bounded stand-in (sampled): ARB built as an affine image (random rotation, scaling, shear, offset away from the
+    origin) of the unit cube (8 vertices, 6 facets), of a tetrahedron (4 vertices, 4 facets) or of a triangular prism
+    (6 vertices, 5 facets), unused slots zero-padded; a probe point A u + b is inside the solid iff u is inside the
+    reference solid; the intersection of the negative sides of the emitted planes must agree."""
     samples = 300
 
     def cases(S):
@@ -331,11 +349,10 @@ class _Arb:
         return MB.arb(params)
 
     def ensures(result, params, probe):
-        u, pt = probe
-        if any(abs(x) < 1e-3 or abs(x - 1) < 1e-3 for x in u):
+        u, pt, inside_spec, margin, nfacets = probe
+        if margin < 1e-3:
             return
-        inside_spec = all(0 < x < 1 for x in u)
-        yield 'six-facets', len(result) == 6
+        yield 'one-plane-per-facet', len(result) == nfacets
         vals = [side * (pr[0] * pt[0] + pr[1] * pt[1] + pr[2] * pt[2] - pr[3]) for _, pr, side in result]
         yield 'interior', all(v < 0 for v in vals) == inside_spec
 
